@@ -24,7 +24,32 @@ A fragment is designated by `(function, kind, start)`; the function must have ex
 
 Additional statements/expressions in fragments: `break`/`continue` (loop bodies), dict displays with constant string keys, `dict(x)`,
 `str(x)`, and `x["k"] = v` — the latter only while `x` is bound to a dict the fragment itself has just built (`dict(...)`/display) and
-that has not been used as a bare value since (no aliasing: value semantics and CPython's reference semantics then coincide)."""
+that has not been used as a bare value since (no aliasing: value semantics and CPython's reference semantics then coincide).
+
+TARGET-MATCHER EXTENSIONS (used by `extractors/src_translation_target.py` for `_is_strict` / `match_resource`; every one of them is
+syntax-directed and anything outside the stated shape still raises `Unsupported`):
+
+* guard-style early returns: a `return` ends its path, so `if c: return X` followed by more statements is `if c then X else <rest>`
+  (this was always so; nested guards inside if/else branches work the same way).
+* `joins=True`: the statements after an `if` of which BOTH branches can fall through are translated ONCE, bound to a local name
+  `join<n>` — a function of the variables the `if` assigns and the rest reads, or a plain value when there are none — and both branches
+  end in it (instead of the default: the rest duplicated into both branches).  Lean's `let` is pure, so binding the rest before the
+  test does not change what is computed.
+* `for k, v in d.items(): <body>` whose body `return`s: `Rbacx.Py.forItemsRet d (fun k v => <body as Option: some x = returned x, none =
+  next entry>) <rest>` — the first value returned over the entries in order, else what the statements after the loop compute.  Accepted
+  only when the body has no `break`/`continue`/loop, every variable it assigns is assigned before it is read in the same iteration, and
+  neither those variables nor `k`, `v` are read outside the loop (so no state is carried between iterations or out of the loop).
+* a set comprehension `{e for x in it [if c]}`, a set display `{a, b}` or `set(it)` ONLY as the right operand of `in` / `not in`: `Rbacx.Py.inSet <elements> a` =
+  membership by `==`.  CPython hashes first: for str/int/float/bool/None members equal values have equal hashes, so hashing changes
+  nothing; an unhashable member (list/dict) raises TypeError in CPython — not represented: the source must exclude it (a comprehension
+  whose element is `str(...)` does by construction; `set(x)` has to be guarded, and the differential run is what checks that).
+* `all(<genexp>)` (`allOf`), `bool(x)` (`boolOf`), `d.get(k)` with a variable key (`getV`: a non-string key is in no JSON dict).
+* `str(x)` with `oracle=True`: `Rbacx.Py.strO o x`, `o : Oracle` being an extra FIRST parameter of every function that
+  (transitively) calls `str` — the text of floats/containers/datetimes is CPython's, supplied as `o.strOf`, exactly as in the model.
+* a bare local annotation `x: T` (no value): no runtime effect, skipped.  Keyword-only parameters become positional parameters in
+  signature order; their defaults (constants only) are recorded in the generated doc comment, callers pass every argument.
+* `try: <body> except Exception: <handler>` (no else/finally) as the WHOLE body of a function: the try body is translated and the
+  generated doc comment says so; the translation speaks about the inputs on which the try body does not raise."""
 from __future__ import annotations
 
 import ast
@@ -59,10 +84,16 @@ def lean_str(s: str) -> str:
 
 
 class Translator:
-    def __init__(self, known: set[str], consts: dict | None = None):
+    def __init__(self, known: set[str], consts: dict | None = None, joins: bool = False, oracle: bool = False):
         self.known = known        # python names of the functions being translated (callable from one another)
         self.consts = consts or {}   # module-level NAME = <tuple/str/int constant> assignments, inlined at their uses
         self.locals: set[str] = set()
+        self.joins = joins        # bind the statements after a two-way fall-through `if` once (see the module docstring)
+        self.oracle = oracle      # `str(x)` → `Rbacx.Py.strO o x` with an oracle parameter `o`
+        self.uses_oracle: set[str] = set()   # translated functions that take `o`
+        self.cur_oracle = False   # the function being translated takes `o`
+        self.njoin = 0
+        self.notes: list[str] = []
 
     # ------------------------------------------------------------------ expressions
     def E(self, e: ast.expr) -> str:
@@ -113,10 +144,10 @@ class Translator:
                 return f"(Rbacx.Py.eq {self.E(a)} {self.E(b)})"
             if isinstance(op, ast.NotEq):
                 return f"(Rbacx.Py.ne {self.E(a)} {self.E(b)})"
-            if isinstance(op, ast.In):
-                return f"(Rbacx.Py.contains {self.E(b)} {self.E(a)})"
-            if isinstance(op, ast.NotIn):
-                return f"(Rbacx.Py.pnot (Rbacx.Py.contains {self.E(b)} {self.E(a)}))"
+            if isinstance(op, (ast.In, ast.NotIn)):
+                elems = self.set_elements(b)
+                test = f"(Rbacx.Py.inSet {elems} {self.E(a)})" if elems is not None else f"(Rbacx.Py.contains {self.E(b)} {self.E(a)})"
+                return test if isinstance(op, ast.In) else f"(Rbacx.Py.pnot {test})"
             if isinstance(op, ast.Gt) and isinstance(a, ast.Call) and isinstance(a.func, ast.Name) and a.func.id == "len" \
                     and isinstance(b, ast.Constant) and isinstance(b.value, int):
                 return f"(Rbacx.Py.gtInt (Rbacx.Py.len {self.E(a.args[0])}) {b.value})"
@@ -135,15 +166,18 @@ class Translator:
                 return f"(Rbacx.Py.lower {self.E(f.value)})"
             if isinstance(f, ast.Attribute) and f.attr == "endswith" and len(e.args) == 1 and not e.keywords:
                 return f"(Rbacx.Py.endswith {self.E(f.value)} {self.E(e.args[0])})"
-            if isinstance(f, ast.Name) and f.id == "any" and len(e.args) == 1 and isinstance(e.args[0], ast.GeneratorExp) \
-                    and len(e.args[0].generators) == 1 and not e.args[0].generators[0].ifs \
+            if isinstance(f, ast.Name) and f.id in ("any", "all") and f.id not in self.locals and len(e.args) == 1 and not e.keywords \
+                    and isinstance(e.args[0], ast.GeneratorExp) \
+                    and len(e.args[0].generators) == 1 and not e.args[0].generators[0].ifs and not e.args[0].generators[0].is_async \
                     and isinstance(e.args[0].generators[0].target, ast.Name):
                 g = e.args[0].generators[0]
                 self.locals.add(g.target.id)
-                return f"(Rbacx.Py.anyOf {self.E(g.iter)} fun {ident(g.target.id)} => {self.E(e.args[0].elt)})"
+                return f"(Rbacx.Py.{f.id}Of {self.E(g.iter)} fun {ident(g.target.id)} => {self.E(e.args[0].elt)})"
             if isinstance(f, ast.Attribute) and f.attr == "get" and len(e.args) == 1 and isinstance(e.args[0], ast.Constant) \
                     and isinstance(e.args[0].value, str) and not e.keywords:
                 return f"(Rbacx.Py.get {self.E(f.value)} {lean_str(e.args[0].value)})"
+            if isinstance(f, ast.Attribute) and f.attr == "get" and len(e.args) == 1 and isinstance(e.args[0], ast.Name) and not e.keywords:
+                return f"(Rbacx.Py.getV {self.E(f.value)} {self.E(e.args[0])})"
             if isinstance(f, ast.Name):
                 if f.id == "isinstance" and len(e.args) == 2 and isinstance(e.args[1], ast.Name):
                     return f"(Rbacx.Py.isInstance {self.E(e.args[0])} {lean_str(e.args[1].id)})"
@@ -155,11 +189,38 @@ class Translator:
                 if f.id == "dict" and len(e.args) == 1 and not e.keywords and f.id not in self.locals:
                     return f"(Rbacx.Py.dictCopy {self.E(e.args[0])})"
                 if f.id == "str" and len(e.args) == 1 and not e.keywords and f.id not in self.locals:
+                    if self.oracle:
+                        if not self.cur_oracle:
+                            raise Unsupported("str(x) in a function that was not given the oracle parameter")
+                        return f"(Rbacx.Py.strO o {self.E(e.args[0])})"
                     return f"(Rbacx.Py.strOf {self.E(e.args[0])})"
-                if f.id in self.known and not e.keywords:
-                    return "(" + " ".join([ident(f.id)] + [self.E(a) for a in e.args]) + ")"
+                if f.id == "bool" and len(e.args) == 1 and not e.keywords and f.id not in self.locals:
+                    return f"(Rbacx.Py.boolOf {self.E(e.args[0])})"
+                if f.id in self.known and not e.keywords and f.id not in self.locals:
+                    if f.id in self.uses_oracle and not self.cur_oracle:
+                        raise Unsupported(f"call of {f.id}, which needs the oracle, from a function without it")
+                    return "(" + " ".join([ident(f.id)] + (["o"] if f.id in self.uses_oracle else []) + [self.E(a) for a in e.args]) + ")"
             raise Unsupported(f"call {ast.unparse(e)}")
         raise Unsupported(f"expression {ast.unparse(e)}")
+
+    def set_elements(self, b: ast.expr) -> str | None:
+        """the Lean list of the members of a set expression used as the right operand of `in`/`not in`; None when `b` is not one"""
+        if isinstance(b, ast.SetComp):
+            if len(b.generators) != 1 or b.generators[0].is_async or not isinstance(b.generators[0].target, ast.Name):
+                raise Unsupported("comprehension shape")
+            g = b.generators[0]
+            if not g.ifs:
+                return f"((Rbacx.Py.iter {self.E(g.iter)}).map fun {ident(g.target.id)} => {self.E(b.elt)})"
+            body = f"[{self.E(b.elt)}]"
+            for cond in reversed(g.ifs):
+                body = f"(if ({self.E(cond)}).truthy then {body} else [])"
+            return f"((Rbacx.Py.iter {self.E(g.iter)}).flatMap fun {ident(g.target.id)} => {body})"
+        if isinstance(b, ast.Call) and isinstance(b.func, ast.Name) and b.func.id == "set" and b.func.id not in self.locals \
+                and len(b.args) == 1 and not b.keywords:
+            return f"(Rbacx.Py.iter {self.E(b.args[0])})"
+        if isinstance(b, ast.Set):
+            return "[" + ", ".join(self.E(x) for x in b.elts) + "]"
+        return None
 
     # ------------------------------------------------------------------ statements (continuation style)
     def appends(self, stmts: list[ast.stmt], acc: str) -> str:
@@ -186,42 +247,161 @@ class Translator:
                 return node.func.value.id
         raise Unsupported("for loop without an append")
 
-    def S(self, stmts: list[ast.stmt], ind: str) -> str:
+    @staticmethod
+    def falls_through(stmts: list[ast.stmt]) -> bool:
+        """can control run off the end of this statement list? (syntactic: a `return`, or an `if` whose branches all return, ends it)"""
+        for st in stmts:
+            if isinstance(st, ast.Return):
+                return False
+            if isinstance(st, ast.If) and not Translator.falls_through(st.body) and not Translator.falls_through(st.orelse):
+                return False
+        return True
+
+    @staticmethod
+    def _stores(stmts: list[ast.stmt]) -> list[str]:
+        """the names a statement list assigns, in order of first assignment (comprehension variables excluded)"""
+        out: list[str] = []
+
+        def walk(n: ast.AST) -> None:
+            if isinstance(n, (ast.ListComp, ast.SetComp, ast.GeneratorExp, ast.DictComp)):
+                return
+            if isinstance(n, ast.Name) and isinstance(n.ctx, ast.Store) and n.id not in out:
+                out.append(n.id)
+            for c in ast.iter_child_nodes(n):
+                walk(c)
+        for st in stmts:
+            walk(st)
+        return out
+
+    def items_loop(self, st: ast.For) -> tuple[str, str, ast.expr] | None:
+        """(k, v, d) when `st` is `for k, v in d.items():` with a body that returns; None for a loop whose body does not return"""
+        if not any(isinstance(n, ast.Return) for b in st.body for n in ast.walk(b)):
+            return None
+        it, tg = st.iter, st.target
+        if not (isinstance(it, ast.Call) and isinstance(it.func, ast.Attribute) and it.func.attr == "items" and not it.args and not it.keywords
+                and isinstance(tg, ast.Tuple) and len(tg.elts) == 2 and all(isinstance(x, ast.Name) for x in tg.elts)):
+            raise Unsupported("a for loop whose body returns must have the form `for k, v in d.items():`")
+        if st.orelse:
+            raise Unsupported("for/else")
+        for b in st.body:
+            for n in ast.walk(b):
+                if isinstance(n, (ast.Break, ast.Continue, ast.For, ast.While, ast.Try, ast.With)):
+                    raise Unsupported(f"{type(n).__name__} inside a for loop whose body returns")
+        k, v = tg.elts[0].id, tg.elts[1].id
+        if k == v:
+            raise Unsupported("loop targets")
+        assigned = self._stores(st.body)
+        if k in assigned or v in assigned:
+            raise Unsupported("the loop body assigns a loop target")
+        free: list[str] = []
+        _flow(st.body, set(assigned), set(), free, [])
+        if free:
+            raise Unsupported(f"loop body reads {free} before assigning them in the same iteration (state carried between iterations)")
+        inside = {id(n) for n in ast.walk(st)}
+        for n in ast.walk(self.cur_fn):
+            if isinstance(n, ast.Name) and id(n) not in inside and n.id in set(assigned) | {k, v}:
+                raise Unsupported(f"variable {n.id} of an early-return loop is used outside the loop")
+        return k, v, it.func.value
+
+    def S(self, stmts: list[ast.stmt], ind: str, tail: str = "PyVal.none", ret=None) -> str:
+        """`tail`: what the statements compute when control runs off their end; `ret`: wraps a returned value (loop bodies: `some`)"""
+        ret = ret or (lambda x: x)
         if not stmts:
-            return "PyVal.none"
+            return tail
         st, rest = stmts[0], stmts[1:]
         if isinstance(st, ast.Expr) and isinstance(st.value, ast.Constant) and isinstance(st.value.value, str):
-            return self.S(rest, ind)                                                   # docstring
+            return self.S(rest, ind, tail, ret)                                        # docstring
         if isinstance(st, ast.Pass):
-            return self.S(rest, ind)
+            return self.S(rest, ind, tail, ret)
         if isinstance(st, ast.Return):
-            return self.E(st.value) if st.value is not None else "PyVal.none"
+            return ret(self.E(st.value) if st.value is not None else "PyVal.none")
+        if isinstance(st, ast.AnnAssign) and st.value is None and isinstance(st.target, ast.Name) and st.simple:
+            return self.S(rest, ind, tail, ret)                                        # bare local annotation `x: T`: no runtime effect
         if isinstance(st, (ast.Assign, ast.AnnAssign)):
             tgt = st.targets[0] if isinstance(st, ast.Assign) else st.target
             if (isinstance(st, ast.Assign) and len(st.targets) != 1) or not isinstance(tgt, ast.Name) or st.value is None:
                 raise Unsupported(f"assignment {ast.unparse(st)[:60]}")
-            return f"let {ident(tgt.id)} := {self.E(st.value)}\n{ind}{self.S(rest, ind)}"
+            return f"let {ident(tgt.id)} := {self.E(st.value)}\n{ind}{self.S(rest, ind, tail, ret)}"
         if isinstance(st, ast.If):
-            a = self.S(st.body + rest, ind + "  ")
-            b = self.S(st.orelse + rest, ind + "  ")
+            if self.joins and rest and self.falls_through(st.body) and self.falls_through(st.orelse):
+                # both branches can reach the statements after the `if`: bind those once
+                self.njoin += 1
+                name = f"join{self.njoin}"
+                if name in self.locals or name in self.known:
+                    raise Unsupported(f"the source uses the name {name}")
+                loads: list[str] = []
+                for r_ in rest:
+                    _reads(r_, self.locals, loads)
+                params = [v for v in self._stores([st]) if v in loads]
+                k = self.S(rest, ind + "  ", tail, ret)
+                if params:
+                    head = f"let {name} := fun " + " ".join(f"({ident(v)} : PyVal)" for v in params) + f" =>\n{ind}  {k}\n{ind}"
+                    call = "(" + " ".join([name] + [ident(v) for v in params]) + ")"
+                else:
+                    head = f"let {name} :=\n{ind}  {k}\n{ind}"
+                    call = name
+                a = self.S(st.body, ind + "  ", call, ret)
+                b = self.S(st.orelse, ind + "  ", call, ret)
+                return f"{head}if ({self.E(st.test)}).truthy then\n{ind}  {a}\n{ind}else\n{ind}  {b}"
+            a = self.S(st.body + rest, ind + "  ", tail, ret)
+            b = self.S(st.orelse + rest, ind + "  ", tail, ret)
             return f"if ({self.E(st.test)}).truthy then\n{ind}  {a}\n{ind}else\n{ind}  {b}"
         if isinstance(st, ast.For):
+            loop = self.items_loop(st)
+            if loop is not None:
+                k, v, d = loop
+                body = self.S(st.body, ind + "    ", "none", lambda x: f"(some {x})")
+                after = self.S(rest, ind + "    ", tail, ret)
+                return (f"Rbacx.Py.forItemsRet {self.E(d)}\n{ind}  (fun ({ident(k)} : PyVal) ({ident(v)} : PyVal) =>\n{ind}    {body})\n"
+                        f"{ind}  (\n{ind}    {after})")
             if st.orelse or not isinstance(st.target, ast.Name):
                 raise Unsupported("for/else or tuple target")
             acc = self.loop_acc(st)
             body = self.appends(st.body, acc)
             return (f"let {ident(acc)} := Rbacx.Py.concat {ident(acc)} (Rbacx.Py.collect {self.E(st.iter)} fun {ident(st.target.id)} => {body})\n"
-                    f"{ind}{self.S(rest, ind)}")
+                    f"{ind}{self.S(rest, ind, tail, ret)}")
         raise Unsupported(f"statement {ast.unparse(st)[:60]}")
 
+    def needs_oracle(self, fn: ast.FunctionDef) -> bool:
+        for n in ast.walk(fn):
+            if isinstance(n, ast.Call) and isinstance(n.func, ast.Name) and (n.func.id == "str" or n.func.id in self.uses_oracle):
+                return True
+        return False
+
     def function(self, fn: ast.FunctionDef) -> str:
-        if fn.args.vararg or fn.args.kwarg or fn.args.defaults:
+        if fn.args.vararg or fn.args.kwarg or fn.args.defaults or fn.args.posonlyargs:
             raise Unsupported(f"signature of {fn.name}")
         # keyword-only parameters become positional ones in signature order (their defaults are not used: callers pass all of them)
         allargs = list(fn.args.args) + list(fn.args.kwonlyargs)
         self.locals = {a.arg for a in allargs} | {n.id for n in ast.walk(fn) if isinstance(n, ast.Name) and isinstance(n.ctx, ast.Store)}
-        params = " ".join(f"({ident(a.arg)} : PyVal)" for a in allargs)
-        return f"def {ident(fn.name)} {params} : PyVal :=\n  {self.S(fn.body, '  ')}\n"
+        self.cur_fn = fn
+        self.cur_oracle = self.oracle and self.needs_oracle(fn)
+        self.njoin = 0
+        notes = []
+        if self.cur_oracle:
+            if "o" in self.locals or ident(fn.name) == "o":
+                raise Unsupported("the source uses the name o")
+            self.uses_oracle.add(fn.name)
+            notes.append("`o`: the oracle that supplies CPython's `str()` of floats, containers and datetimes")
+        for a, d in zip(fn.args.kwonlyargs, fn.args.kw_defaults):
+            if d is not None:
+                if not isinstance(d, ast.Constant):
+                    raise Unsupported(f"default of keyword-only parameter {a.arg}")
+                notes.append(f"keyword-only parameter `{a.arg}` (default `{d.value!r}`) is an ordinary parameter here: callers pass it")
+        body = fn.body
+        while body and isinstance(body[0], ast.Expr) and isinstance(body[0].value, ast.Constant) and isinstance(body[0].value.value, str):
+            body = body[1:]
+        if len(body) == 1 and isinstance(body[0], ast.Try):
+            t = body[0]
+            if t.orelse or t.finalbody or len(t.handlers) != 1 or not (isinstance(t.handlers[0].type, ast.Name) and t.handlers[0].type.id == "Exception"):
+                raise Unsupported("try statement shape")
+            handler = "; ".join(ast.unparse(h) for h in t.handlers[0].body)
+            notes.append(f"the body is `try: … except Exception: {handler}`: translated is the try body; on an argument for which it raises "
+                         f"CPython runs the handler instead (for `x.get(…)`: when `x` is not a dict)")
+            body = t.body
+        params = " ".join((["(o : Oracle)"] if self.cur_oracle else []) + [f"({ident(a.arg)} : PyVal)" for a in allargs])
+        doc = ("/-- " + "; ".join(notes).replace("-/", "- /") + " -/\n") if notes else ""
+        return f"{doc}def {ident(fn.name)} {params} : PyVal :=\n  {self.S(body, '  ')}\n"
 
     # ------------------------------------------------------------------ fragments (see the module docstring)
     @staticmethod
@@ -469,11 +649,11 @@ def _module_consts(tree: ast.Module) -> dict:
     return consts
 
 
-def translate(source: str, names: list[str]) -> dict[str, str]:
-    """{python function name: Lean definition text} in the order given (callees first)"""
+def translate(source: str, names: list[str], joins: bool = False, oracle: bool = False) -> dict[str, str]:
+    """{python function name: Lean definition text} in the order given (callees first); `joins`, `oracle`: see the module docstring"""
     tree = ast.parse(source)
     fns = {n.name: n for n in tree.body if isinstance(n, ast.FunctionDef)}
-    tr = Translator(set(names), _module_consts(tree))
+    tr = Translator(set(names), _module_consts(tree), joins=joins, oracle=oracle)
     out = {}
     for name in names:
         if name not in fns:
